@@ -149,9 +149,14 @@ func (o *C07) randAddr() string {
 	b := make([]byte, 20)
 	o.rng.Read(b)
 	s := "0x" + hex.EncodeToString(b)
-	if o.rng.Intn(3) == 0 {
+	switch o.rng.Intn(6) {
+	case 0, 1:
 		s = strings.ToUpper(s[2:])
 		s = "0x" + s
+	case 2: // spellings that pass the hub's hex-address validation as well
+		s = s[2:]
+	case 3:
+		s = "0X" + s[2:]
 	}
 	return s
 }
